@@ -41,6 +41,7 @@ type Val struct {
 	K     Kind
 	Root  ssa.Value
 	Fr    *Frame // frame in which Root was evaluated (needed to resolve stores)
+	Deref bool   // the path starts at what the pointer VARIABLE Root (assigned more than once) currently points to
 	Segs  []Seg
 	Const *ssa.Const
 	Fn    *ssa.Function
@@ -89,6 +90,9 @@ func (v Val) Key() string {
 	case KPath:
 		var sb strings.Builder
 		sb.WriteString(rootKey(v.Root))
+		if v.Deref {
+			sb.WriteString("→")
+		}
 		for _, s := range v.Segs {
 			sb.WriteString(s.String())
 		}
@@ -130,7 +134,7 @@ func (v Val) with(s Seg) Val {
 	n := make([]Seg, len(v.Segs)+1)
 	copy(n, v.Segs)
 	n[len(v.Segs)] = s
-	return Val{K: KPath, Root: v.Root, Fr: v.Fr, Segs: n}
+	return Val{K: KPath, Root: v.Root, Fr: v.Fr, Segs: n, Deref: v.Deref}
 }
 
 // LastField returns the last field selector and the base path before it
@@ -147,7 +151,7 @@ func (v Val) LastField() (base Val, f Seg, elems int, ok bool) {
 	if i < 0 {
 		return
 	}
-	return Val{K: KPath, Root: v.Root, Fr: v.Fr, Segs: v.Segs[:i]}, v.Segs[i], elems, true
+	return Val{K: KPath, Root: v.Root, Fr: v.Fr, Segs: v.Segs[:i], Deref: v.Deref}, v.Segs[i], elems, true
 }
 
 // Frame is one (possibly inlined) activation of a function.
@@ -203,7 +207,7 @@ func (p *Prog) Eval(fr *Frame, v ssa.Value) Val {
 // CanonPath rewrites a path that starts at a field of a freshly allocated object whose (unique)
 // initialiser shares an existing sync object (nextItem.mutex = item.mutex) to the shared object.
 func (p *Prog) CanonPath(v Val) Val {
-	if v.K != KPath || len(v.Segs) == 0 || v.Segs[0].Elem {
+	if v.K != KPath || len(v.Segs) == 0 || v.Segs[0].Elem || v.Deref {
 		return v
 	}
 	al, ok := v.Root.(*ssa.Alloc)
@@ -303,7 +307,7 @@ func (p *Prog) eval(fr *Frame, v ssa.Value, depth int) Val {
 		if a.K != KPath {
 			return p.opaque(fr, v)
 		}
-		if al, ok := a.Root.(*ssa.Alloc); ok {
+		if al, ok := a.Root.(*ssa.Alloc); ok && !a.Deref {
 			if len(a.Segs) == 0 {
 				// a cell: forward the unique store
 				if sts := p.storesToAlloc[al]; len(sts) == 1 && sts[0].Parent() == al.Parent() && a.Fr != nil && a.Fr.Fn == al.Parent() {
@@ -311,6 +315,15 @@ func (p *Prog) eval(fr *Frame, v ssa.Value, depth int) Val {
 				}
 				if sts := p.storesToAlloc[al]; len(sts) == 1 && sts[0].Parent() == al.Parent() && a.Fr == nil {
 					return p.eval(nil, sts[0].Val, depth+1)
+				}
+				// a pointer variable assigned more than once (item = m[k] ... item = &T{}): every load names "the object
+				// the variable currently points to"; the simulator invalidates locks taken through the variable when it
+				// is re-assigned (Sim.step, Store), so two loads between assignments denote the same object
+				if pt, isP := al.Type().Underlying().(*types.Pointer); isP && len(p.storesToAlloc[al]) > 1 {
+					if _, ptrElem := pt.Elem().Underlying().(*types.Pointer); ptrElem && !a.Deref {
+						a.Deref = true
+						return a
+					}
 				}
 				return p.opaque(fr, v)
 			}
